@@ -4,7 +4,7 @@ import z3
 
 from pyvc import trace as T
 from pyvc.ops import FALSE, TRUE
-from pyvc.values import SElem, SEnum, SNone, SObj, SOpt, SStr, fresh_int
+from pyvc.values import ObjRec, SElem, SEnum, SNone, SObj, SOpt, SStr, fresh_int
 from pyvc.verify import Obl
 
 from . import tprops as P
@@ -1690,3 +1690,267 @@ def determine_status_unit():
 
 
 ALL.append(determine_status_unit)
+
+
+# ----------------------------------------------------------------------------- JumpToStage (C15)
+JH = H + "jump_to_stage.handler:JumpToStageHandler"
+
+
+def jump_registry(contract_apply=True):
+    from pyvc.values import SBool, fresh_bool
+
+    reg = run_task_registry()
+    if contract_apply:
+        def apply_jump(I, a, k):
+            I.st.emit("apply_jump", mutations=a[1], message=a[2], pushes=a[3])
+            return SNone
+        reg.contracts["*._apply_jump"] = apply_jump
+    return reg
+
+
+def _jump_handler(ctx):
+    from .hcommon import make_handler
+
+    h = make_handler(ctx.I, JH)
+    ctx.extra["handler"] = h
+    _cps_setup(ctx)
+    return h
+
+
+def _budget_post(ctx):
+    """C15/budget: _check_jump_count returns False iff count >= max with max = execution._max_jumps ?? source._max_jumps
+    ?? 10 (explicit None tests, so 0 disables jumping); on False exactly one atomic jump application that marks the source
+    stage TERMINAL and pushes CompleteStage(source)."""
+    from pyvc.values import VAL
+    from pyvc.ops import val_truthy
+
+    I = ctx.I
+    if ctx.exc is not None:
+        # comparing non-numeric context values raises TypeError: only for ill-typed engine-internal keys (excluded by requires)
+        return [("no-exception", FALSE)]
+    ex, src = ctx.args["execution"], ctx.args["source_stage"]
+    cnt_has, cnt_v = _ctx_key(ctx, z3.Array("source_stage.context.has", z3.IntSort(), z3.BoolSort()),
+                              z3.Array("source_stage.context.vals", z3.IntSort(), VAL), "_jump_count")
+    e_has, e_v = _ctx_key(ctx, z3.Array("execution.context.has", z3.IntSort(), z3.BoolSort()),
+                          z3.Array("execution.context.vals", z3.IntSort(), VAL), "_max_jumps")
+    s_has, s_v = _ctx_key(ctx, z3.Array("source_stage.context.has", z3.IntSort(), z3.BoolSort()),
+                          z3.Array("source_stage.context.vals", z3.IntSort(), VAL), "_max_jumps")
+    count = z3.If(cnt_has, VAL.vi(cnt_v), 0)
+    e_set = z3.And(e_has, z3.Not(VAL.is_VNone(e_v)))
+    s_set = z3.And(s_has, z3.Not(VAL.is_VNone(s_v)))
+    mx = z3.If(e_set, VAL.vi(e_v), z3.If(s_set, VAL.vi(s_v), 10))
+    res = I.ops.truthy(ctx.result)
+    goals = [("false-iff-budget-exhausted", res == z3.Not(count >= mx))]
+    aj = [e for e in ctx.st.effects if e.kind == "apply_jump"]
+    goals.append(("applies-jump-iff-exhausted", z3.If(res, z3.BoolVal(not aj), z3.BoolVal(len(aj) == 1))))
+    for e in aj:
+        muts = I.concrete_items(e.data["mutations"])
+        pushes_ = I.concrete_items(e.data["pushes"])
+        goals.append(("one-mutation-of-the-source", z3.And(z3.BoolVal(len(muts) == 1), I.ops.eq(muts[0].items[0], I.getattr(src, "id")))))
+        goals.append(("pushes-complete-stage-of-source", z3.And(z3.BoolVal(len(pushes_) == 1 and I.class_of(pushes_[0]).name == "CompleteStage"),
+                                                                 I.ops.eq(I.getattr(pushes_[0], "stage_id"), I.getattr(src, "id")))))
+        # run the mutation closure on a fresh row: it must mark the stage TERMINAL
+        probe = T.new_symbolic(I, "StageExecution", "probe_stage")
+        I.call(muts[0].items[1], [probe], {})
+        goals.append(("source-goes-terminal", I.getattr(probe, "status").t == status(I, "TERMINAL")))
+    return goals
+
+
+def check_jump_count_unit():
+    from pyvc.verify import Unit
+    from pyvc.values import VAL
+    from .common import STATUS_NAMES
+
+    def numeric(ctx):
+        # is_valid of the engine-internal keys: _jump_count / _max_jumps, when present and not None, are integers
+        def ok(name, key):
+            has = z3.Select(z3.Array(f"{name}.context.has", z3.IntSort(), z3.BoolSort()), ctx.I.ops.lit(key).t)
+            v = z3.Select(z3.Array(f"{name}.context.vals", z3.IntSort(), VAL), ctx.I.ops.lit(key).t)
+            return z3.Implies(has, z3.Or(VAL.is_VInt(v), VAL.is_VNone(v) if key == "_max_jumps" else VAL.is_VInt(v)))
+        return z3.And(ok("source_stage", "_jump_count"), ok("source_stage", "_max_jumps"), ok("execution", "_max_jumps"))
+
+    return Unit(prop="*", name="L3/JumpToStage._check_jump_count", func=JH + "._check_jump_count",
+                params=[("message", ("obj", "JumpToStage")), ("execution", ("obj", "Workflow")), ("source_stage", ("obj", "StageExecution"))],
+                self_type=_jump_handler, names=STATUS_NAMES, registry=jump_registry(), replayable=False, requires=[numeric],
+                setup=lambda ctx: (ctx.I.getattr(ctx.args["execution"], "context"), ctx.I.getattr(ctx.args["source_stage"], "context")),
+                obligations=[Obl("C15/budget", _budget_post, when="any")])
+
+
+def _apply_jump_post(ctx):
+    """C15/atomic: every stage mutation of a jump, the processed mark and the follow-on messages are ONE transaction;
+    every mutated row is loaded fresh inside it; a conflict rolls the whole transaction back."""
+    I = ctx.I
+    goals = []
+    txns = T.transactions(ctx.st.effects)
+    goals.append(("one-transaction", z3.BoolVal(len(txns) == 1)))
+    stores_ = ctx.st.effects_of("store_stage")
+    goals.append(("stores-inside-it", z3.BoolVal(all(e.data.get("txn") == txns[0].tid for e in stores_)) if txns else FALSE))
+    goals.append(("rows-loaded-fresh", z3.BoolVal(all((e.data.get("loaded") or {}).get("how") == "retrieve_stage" for e in stores_))))
+    goals.append(("no-standalone-commit", z3.BoolVal(not ctx.st.effects_of("standalone", "queue_push"))))
+    if ctx.exc is None and txns:
+        t = txns[0]
+        goals.append(("committed", z3.BoolVal(t.committed)))
+        truthy, mid = P.msg_id_truthy(ctx)
+        marks = [e for e in t.effects if e.kind == "mark"]
+        goals.append(("mark-in-it", z3.Implies(truthy, z3.Or(*[I.ops.eq(e.data["message_id"], mid) for e in marks]) if marks else FALSE)))
+        ps = [b for e in t.effects for b, _ in T.flat([e]) if b.kind == "push"]
+        goals.append(("pushes-in-it", z3.BoolVal(len(ps) == 1)))
+    return goals
+
+
+def apply_jump_unit():
+    from pyvc.verify import Unit
+    from pyvc.values import Seg, SModel, fresh_int as fi
+    from .common import STATUS_NAMES
+
+    def mutations(ctx):
+        I = ctx.I
+        n = z3.Int("n_mutations")
+        I.st.assume(n >= 0)
+        g = fi("g")
+        ids = z3.Array("mutation_stage_id", z3.IntSort(), z3.IntSort())
+
+        def mutate(I2, a, k):
+            # an arbitrary in-memory mutation of the freshly loaded stage (re-arm / force-mark): jump semantics, exempt from T3
+            I2.st.emit("mutate", stage=a[0])
+            return SNone
+
+        return I.ops.new_derived([Seg(-1, (), n, g, TRUE, STuple_([SStr(z3.Select(ids, g)), SModel(mutate, None, "mutation")]))])
+
+    def pushes_(ctx):
+        I = ctx.I
+        return I.ops.new_conc_list([T.new_symbolic(I, "StartStage", "follow_on")])
+
+    def msg(ctx):
+        m = T.new_symbolic(ctx.I, "JumpToStage", "message")
+        ctx.extra["message"] = m
+        return m
+
+    return Unit(prop="*", name="L3/JumpToStage._apply_jump", func=JH + "._apply_jump",
+                params=[("mutations", mutations), ("message", msg), ("messages_to_push", pushes_)],
+                self_type=_jump_handler, names=STATUS_NAMES, registry=jump_registry(contract_apply=False), replayable=False,
+                obligations=[Obl("C15/atomic", _apply_jump_post, when="any"), Obl("C01/T6/JumpToStage._apply_jump", _apply_jump_post, when="any"),
+                             Obl("C09/T1/JumpToStage", _apply_jump_post, when="any"), Obl("C07/retry-reloads/_apply_jump", _apply_jump_post, when="any")])
+
+
+def STuple_(items):
+    from pyvc.values import STuple
+
+    return STuple(items)
+
+
+ALL += [check_jump_count_unit, apply_jump_unit]
+
+
+# ----------------------------------------------------------------------------- recovery (C10, C01/REC)
+def _recover_post(ctx):
+    """C10/recover/contract on the real WorkflowRecovery._recover_workflow:
+    complete workflow => nothing pushed; no status is ever written; all pushes of one workflow are ONE transaction (the
+    one exception: a NOT_STARTED workflow with nothing to re-queue gets a single standalone StartWorkflow);
+    RunTask(t) only for a task loaded RUNNING with no pending queue message; StartTask(t) only for a NOT_STARTED task of
+    a RUNNING stage that has a start_time, no RUNNING task and no pending message; StartStage only for stages loaded
+    RUNNING or NOT_STARTED."""
+    I = ctx.I
+    goals = []
+    wf = ctx.args["workflow"]
+    writes = ctx.st.effects_of("store_stage", "update_workflow", "standalone", "mark")
+    goals.append(("no-status-write", z3.BoolVal(not writes)))
+    txns = [t for t in T.transactions(ctx.st.effects)]
+    qp = ctx.st.effects_of("queue_push")
+    goals.append(("at-most-one-transaction", z3.BoolVal(len(txns) <= 1)))
+    goals.append(("standalone-push-only-start-workflow", z3.BoolVal(all(e.data["cls"] == "StartWorkflow" for e in qp) and len(qp) <= 1 and not (qp and txns))))
+    anything = bool(qp) or any(t.effects for t in txns)
+    if anything:
+        goals.append(("complete-workflow-pushes-nothing", z3.Not(is_complete(I, I.getattr(wf, "status").t))))
+    full = loaded_execution(ctx)
+    if qp and full is not None:
+        goals.append(("start-workflow-only-when-not-started", T.loaded_info(I, full)["status"].t == status(I, "NOT_STARTED")))
+    for t in txns:
+        for e in t.effects:
+            for b, g in T.flat([e]):
+                if b.kind != "push":
+                    continue
+                m = b.data["msg"]
+                cls = b.data["cls"]
+                goals.append((f"push.{cls}.kind", z3.BoolVal(cls in ("RunTask", "StartTask", "StartStage"))))
+                stages = I.getattr(full, "stages")
+                sarr = I._elem_array(stages.lid, "status", I.typer.sort_of(("enum", WS)))
+                ids = I._elem_array(stages.lid, "id", z3.IntSort())
+                # the stage the message addresses: some index of the loaded stage list with that id (from the iteration frames)
+                frames = [f for f in e.data.get("outer", ())] + [(e.data["lid"], e.data["pidx"], e.data["hi"], e.data["g"], e.data["cond"])]
+                sframe = [f for f in frames if f[0] == stages.lid]
+                if not sframe:
+                    goals.append((f"push.{cls}.from-loaded-stage-list", FALSE))
+                    continue
+                sg = sframe[0][3]
+                goals.append((f"push.{cls}.addresses-iterated-stage", z3.Implies(g, I.getattr(m, "stage_id").t == z3.Select(ids, sg))))
+                if cls == "StartStage":
+                    goals.append((f"push.{cls}.stage-running-or-not-started", z3.Implies(g, in_set(z3.Select(sarr, sg), I, ("RUNNING", "NOT_STARTED")))))
+                else:
+                    goals.append((f"push.{cls}.stage-running", z3.Implies(g, z3.Select(sarr, sg) == status(I, "RUNNING"))))
+    return goals
+
+
+def _recover_task_level(ctx):
+    """RunTask / StartTask pushed by recovery address a task in the required status for which has_pending_message_for_task
+    was evaluated false."""
+    I = ctx.I
+    goals = []
+    queries = [e for e, _ in T.flat(ctx.st.effects) if e.kind == "queue_query"]
+    for t in T.transactions(ctx.st.effects):
+        for e in t.effects:
+            for b, g in T.flat([e]):
+                if b.kind != "push" or b.data["cls"] not in ("RunTask", "StartTask"):
+                    continue
+                m = b.data["msg"]
+                tid = I.getattr(m, "task_id")
+                want = "RUNNING" if b.data["cls"] == "RunTask" else "NOT_STARTED"
+                ent = b.data.get("entity")
+                full = loaded_execution(ctx)
+                stages = I.getattr(full, "stages")
+                child = I.st.lists[stages.lid].meta.get("child:tasks")
+                frames = [f for f in e.data.get("outer", ())] + [(e.data["lid"], e.data["pidx"], e.data["hi"], e.data["g"], e.data["cond"])]
+                sframe = [f for f in frames if f[0] == stages.lid]
+                if child is not None and sframe:
+                    sg = sframe[0][3]
+                    tids = z3.Select(I._elem_array(child, "id", z3.IntSort()), sg)
+                    tst = z3.Select(I._elem_array(child, "status", I.typer.sort_of(("enum", WS))), sg)
+                    k1, k2 = z3.Int("tk1"), z3.Int("tk2")
+                    distinct = z3.ForAll([k1, k2], z3.Implies(k1 != k2, z3.Select(tids, k1) != z3.Select(tids, k2)))
+                    kk = fresh_int("tk")
+                    n_t = z3.Select(I.st.lists[child].length, sg)
+                    goals.append((f"push.{b.data['cls']}.task-status-{want}",
+                                  z3.Implies(z3.And(g, distinct, kk >= 0, kk < n_t, z3.Select(tids, kk) == tid.t), z3.Select(tst, kk) == status(I, want))))
+                    goals.append((f"push.{b.data['cls']}.task-exists",
+                                  z3.Implies(g, z3.Exists([kk], z3.And(kk >= 0, kk < n_t, z3.Select(tids, kk) == tid.t)))))
+                goals.append((f"push.{b.data['cls']}.pending-was-checked-false",
+                              z3.Implies(g, z3.Or(*[z3.And(I.ops.eq(q.data["args"][0], tid), z3.Not(q.data["result"])) for q in queries]) if queries else FALSE)))
+    return goals
+
+
+def recovery_unit():
+    from pyvc.verify import Unit
+    from .common import STATUS_NAMES
+
+    reg = run_task_registry()
+
+    def selfv(ctx):
+        I = ctx.I
+        ci = I.index.find_class("WorkflowRecovery")
+        oid = I.st.new_id()
+        rec = ObjRec(ci.name, ci, {}, {"name": "recovery", "symbolic": True})
+        I.st.objs[oid] = rec
+        rec.fields["store"] = T.StoreModel.make_repository(I)
+        rec.fields["queue"] = T.StoreModel.make_queue(I)
+        return SObj(oid)
+
+    def no_such_workflow(ctx):
+        return TRUE
+
+    return Unit(prop="*", name="L2/WorkflowRecovery._recover_workflow", func="stabilize.recovery:WorkflowRecovery._recover_workflow",
+                params=[("workflow", ("obj", "Workflow"))], self_type=selfv, names=STATUS_NAMES, registry=reg, replayable=False,
+                obligations=[Obl("C10/recover/contract", _recover_post, when="any"), Obl("C01/REC/contract", _recover_post, when="any"),
+                             Obl("C10/recover/task-level", _recover_task_level, when="any")], max_paths=20000)
+
+
+ALL.append(recovery_unit)
